@@ -380,6 +380,32 @@ var c11Advertised = probe.Define("C11", "advertised", func(t *rapid.T) c11AdvIn 
 			sa.DhInfo.TransformID() != ref.DHs[s.DH].ID {
 			return probe.Fail("descriptor lengths/identifiers differ from the RFC table for %s %s %s %s", eName, iName, pName, dName)
 		}
+		// The transforms the library hands out are the caller's: it edits one (offers another key size in a copy of its own
+		// making) - the next conversion of the same algorithm is unaffected.
+		if err := probe.Try(func() error {
+			t1, e := encr.ToTransform(sa.EncrInfo)
+			if e != nil {
+				return e
+			}
+			t1.AttributeValue ^= 0x0180
+			t1.TransformID, t1.AttributePresent = 3, !t1.AttributePresent
+			t2, e := encr.ToTransform(sa.EncrInfo)
+			if e != nil {
+				return e
+			}
+			if back := encr.DecodeTransform(t2); back == nil || back.TransformID() != sa.EncrInfo.TransformID() || back.GetKeyLength() != sa.EncrInfo.GetKeyLength() {
+				return fmt.Errorf("after the caller edited a transform it had been handed, the next conversion of %s gives another algorithm or key size", eName)
+			}
+			for _, pair := range [][2]*message.Transform{{integ.ToTransform(sa.IntegInfo), nil}, {prf.ToTransform(sa.PrfInfo), nil}, {dh.ToTransform(sa.DhInfo), nil}} {
+				pair[0].TransformID ^= 0x7
+			}
+			if integ.DecodeTransform(integ.ToTransform(sa.IntegInfo)) == nil || prf.DecodeTransform(prf.ToTransform(sa.PrfInfo)) == nil || dh.DecodeTransform(dh.ToTransform(sa.DhInfo)) == nil {
+				return fmt.Errorf("after the caller edited transforms it had been handed, the next conversion of the same algorithms is not understood any more")
+			}
+			return nil
+		}); err != nil {
+			return probe.Fail("%v", err)
+		}
 		// every descriptor -> transform -> wire -> descriptor
 		var prop *message.Proposal
 		if err := probe.Try(func() error { var e error; prop, e = sa.ToProposal(); return e }); err != nil {
